@@ -324,7 +324,9 @@ namespace micm
       {
         if (species.HasProperty("absolute tolerance"))
         {
-          tolerances[species_map.at(species.name_)] = species.template GetProperty<double>("absolute tolerance");
+          // species of non-gas phases are keyed by "<phase name>.<species name>" (see System::UniqueNames)
+          tolerances[species_map.at(phase.first + "." + species.name_)] =
+              species.template GetProperty<double>("absolute tolerance");
         }
       }
     }
